@@ -101,3 +101,47 @@ func VerifC19_LookupDuringAppend() {
 		panic(failed) // re-raised in the harness goroutine so that the replay test sees the assertion
 	}
 }
+
+// C19: two updaters delivering overlapping batches CONCURRENTLY (the periodic refresh and the on-demand fetch of a
+// lookup for a future index both end in updateGuardianSets), pre-empted before every mutex operation: afterwards the
+// list still has exactly one entry per index and index i maps to set i.
+func VerifC19_ConcurrentAppends() {
+	n := zzverif.Len("known", 1, 2)
+	addA, addB := zzverif.Len("addA", 1, 2), zzverif.Len("addB", 1, 2)
+	cur := n - 1 + addA
+	if addB > addA {
+		cur = n - 1 + addB
+	}
+	check := func(gs *GuardianSets) {
+		zzverif.Assert(gs.currentGuardianSetIndex == cur, "current-index-is-the-highest-seen")
+		zzverif.Assert(len(gs.guardianSetLists) == cur+1, "list-has-one-entry-per-index")
+		for i := 0; i <= cur && i < len(gs.guardianSetLists); i++ {
+			zzverif.Assert(int(gs.guardianSetLists[i].Index) == i, "list-position-equals-set-index")
+		}
+	}
+	if zzverif.Symbolic() {
+		gs := verifNew(n)
+		var done [2]bool
+		zzverif.Preemptive(true)
+		go func() { _ = gs.updateGuardianSets(verifSets(n, n-1+addA)); done[0] = true }()
+		go func() { _ = gs.updateGuardianSets(verifSets(n, n-1+addB)); done[1] = true }()
+		zzverif.Settle()
+		zzverif.Preemptive(false)
+		zzverif.Assert(done[0] && done[1], "both-updaters-return")
+		check(gs)
+		zzverif.Reach("end")
+		return
+	}
+	// native replay: stress - both updaters released together, many rounds
+	for round := 0; round < 300000; round++ {
+		gs := verifNew(n)
+		var wg sync.WaitGroup
+		wg.Add(2)
+		start := make(chan struct{})
+		go func() { defer wg.Done(); <-start; _ = gs.updateGuardianSets(verifSets(n, n-1+addA)) }()
+		go func() { defer wg.Done(); <-start; _ = gs.updateGuardianSets(verifSets(n, n-1+addB)) }()
+		close(start)
+		wg.Wait()
+		check(gs)
+	}
+}
